@@ -143,8 +143,15 @@ def main(argv=None):
             "functions_executed_in_replay": []})
 
     twin_witness = {}
-    for (kind, hh, sh, excl), r in results:
+    warnings = []
+    pending = [(t, r, 0) for t, r in results]
+    while pending:
+        (kind, hh, sh, excl), r, attempt = pending.pop(0)
         rec = hrec(hh)
+        # transient trouble (CrossHair nondeterminism, a crashed child): run the condition once more
+        if kind == "main" and attempt == 0 and r.get("state") in ("error", "pre_unsat"):
+            pending.append(work((kind, hh, sh, excl)) + (1,))
+            continue
         st = r.get("state")
         stats = r.get("stats") or {}
         if kind == "twin":
@@ -209,10 +216,20 @@ def main(argv=None):
                         violations.append((hh, sh, args, path, r.get("message"), rp))
                         entry["verdict"] = "violation"
                         entry["replay_file"] = path
+                elif attempt == 0:
+                    obligations -= 1
+                    for k in tot:
+                        tot[k] -= stats.get(k, 0)
+                    pending.append(work((kind, hh, sh, excl)) + (1,))
+                    continue
                 else:
-                    errors.append(f"{hh.name}{sh}: counterexample {args} does not reproduce concretely "
-                                  f"(returned {rp.get('returned')}, {rp.get('message') or ''}) -- harness/encoding error: {r.get('message')}")
-                    entry["verdict"] = "harness_error"
+                    # nothing that violates the property was demonstrated on the real code: inconclusive, and say so
+                    warnings.append(f"{hh.name}{sh}: counterexample {args} does not reproduce concretely, twice "
+                                    f"(returned {rp.get('returned')}) -- CrossHair nondeterminism or an encoding problem; "
+                                    f"obligation counted as inconclusive: {r.get('message')}")
+                    inconclusive += 1
+                    entry["verdict"] = "inconclusive"
+                    entry["note"] = "non-reproducing counterexample (not a violation, not a pass)"
         else:
             errors.append(f"{hh.name}{sh}: {st}: {r.get('message')} {r.get('traceback') or ''} {r.get('stderr_tail') or ''}")
             entry["verdict"] = "harness_error"
@@ -287,6 +304,8 @@ def main(argv=None):
     }
     if errors:
         ev["coverage"]["harness_errors"] = errors
+    if warnings:
+        ev["coverage"]["harness_warnings"] = warnings
     evdir = os.environ.get("VERIF_EVIDENCE_DIR") or os.path.join(VERIF, "evidence")
     os.makedirs(evdir, exist_ok=True)
     with open(os.path.join(evdir, prop + ".json"), "w") as f:
@@ -299,6 +318,8 @@ def main(argv=None):
           f"smt={tot['sat'] + tot['unsat'] + tot['unknown']} solver_s={tot['solver_s']:.1f} wall={wall:.0f}s")
     for e in errors:
         print("HARNESS-ERROR:", e[:1500])
+    for e in warnings:
+        print("HARNESS-WARNING:", e[:1500])
     for hh, sh, args, path, msg, rp in violations:
         print(f"counterexample: {hh.name} shard={sh} args={args}: {msg}")
         print(f"VIOLATION property={prop} replay={path}")
